@@ -48,7 +48,75 @@ let build (rep : string) (n : int) (es : (nat * nat) list) : gval =
     let v x = ni ((int_of_nat x + 1) mod n) in
     let h = get (add_edges (d_empty (ni n)) (List.map (fun (a, b) -> (v a, v b)) es)) in
     induced_view (GD h) (List.init n (fun x -> ni ((x + 1) mod n)))
+  | _ when String.length rep = 2 && rep.[0] = 's' ->
+    (* provenance layer of the harness (prov.go): the same abstract graph reached in another way;
+       the model builds the plain value: sparse for the s-provenances, dense for the d- and v- ones *)
+    GS (get (sparse_of_edges (ni n) es))
+  | _ when String.length rep = 2 && (rep.[0] = 'd' || rep.[0] = 'v') ->
+    GD (get (add_edges (d_empty (ni n)) es))
   | _ -> failwith ("bad representation " ^ rep)
+
+(* ---- kind big: the defining predicate of a family (the one the theorem C06_<family> states)
+   evaluated directly; N as in the theorem *)
+let big (mode : string) (fam : string) (args : string list) (toks : string list) : string =
+  let p i = int_of_string (List.nth args i) in
+  let zs i = List.map z_of_int (comma_ints (List.nth args i)) in
+  let pow2 d = 1 lsl d in
+  (* number of vertices and adjacency on nat arguments *)
+  let (nn, adjn) : int * (nat -> nat -> bool) = match fam with
+    | "complete" -> (p 0, complete_def)
+    | "path" -> (p 0, path_def)
+    | "cycle" -> (p 0, cycle_def (ni (p 0)))
+    | "star" -> (p 0, star_def)
+    | "partite" -> let nums = comma_ints (List.nth args 0) in
+      (List.fold_left (+) 0 nums, partite_def (List.map ni nums))
+    | "hypercube" -> (pow2 (p 0), hypercube_def (ni (p 0)))
+    | "folded" -> (pow2 (p 0 - 1), folded_def (ni (p 0)))
+    | "friendship" -> (2 * p 0 + 1, friendship_def)
+    | "petersen" -> (2 * p 0, petersen_def (ni (p 0)) (ni (p 1)))
+    | "circulant" -> (p 0, circulant_def (ni (p 0)) (zs 1))
+    | "circbip" -> (p 0 + p 1, circbip_def (ni (p 0)) (ni (p 1)) (zs 2))
+    | "flower" -> (4 * p 0, flower_def (ni (p 0)))
+    | "rook" -> (p 0 * p 1, rook_def (ni (p 0)))
+    | "kneser" -> (int_of_nat (binom (ni (p 0)) (ni (p 1))), fun _ _ -> false)
+    | "bikneser" -> (2 * int_of_nat (binom (ni (p 0)) (ni (p 1))), fun _ _ -> false)
+    | _ -> failwith ("unknown family " ^ fam) in
+  let nat_of = Array.init nn ni in
+  let adj : int -> int -> bool =
+    if fam = "kneser" then begin
+      (* kneser_set_def k x y = negb (x =? y) && disjointb (ksubset k x) (ksubset k y), with the
+         subset of every vertex computed once *)
+      let k = ni (p 1) in
+      let sub = Array.init nn (fun x -> ksubset k nat_of.(x)) in
+      fun x y -> x <> y && disjointb sub.(x) sub.(y)
+    end else fun x y -> adjn nat_of.(x) nat_of.(y) in
+  match mode with
+  | "oracle" -> Printf.sprintf "N=%d" nn
+  | "all" ->
+    let deg = Array.make nn 0 in
+    let m = ref 0 and h = ref 7 in
+    for j = 1 to nn - 1 do
+      for i = 0 to j - 1 do
+        let b = adj i j in
+        if b then (deg.(i) <- deg.(i) + 1; deg.(j) <- deg.(j) + 1; incr m);
+        h := (!h * 1000003 + (if b then 2 else 1)) mod 2147483647
+      done
+    done;
+    Printf.sprintf "N=%d M=%d D=%s H=%d" nn !m (ints (Array.to_list deg)) !h
+  | "sample" ->
+    let rows = Buffer.create 1024 and bits = Buffer.create 2048 in
+    List.iter (fun t ->
+        if t.[0] = 'r' then begin
+          let v = int_of_string (String.sub t 1 (String.length t - 1)) in
+          let row = List.filter (fun u -> adj v u) (List.init nn (fun u -> u)) in
+          if Buffer.length rows > 0 then Buffer.add_char rows '|';
+          Buffer.add_string rows (Printf.sprintf "%d:%s" v (ints row))
+        end else
+          match String.split_on_char '-' t with
+          | [a; b] -> Buffer.add_char bits (if adj (int_of_string a) (int_of_string b) then '1' else '0')
+          | _ -> failwith ("bad pair " ^ t)) toks;
+    Printf.sprintf "N=%d R=%s P=%s" nn (Buffer.contents rows) (Buffer.contents bits)
+  | _ -> failwith ("bad mode " ^ mode)
 
 let editable (g : gval) : egraph = match g with GD d -> ED d | GS s -> ES s | _ -> failwith "not editable"
 
@@ -132,6 +200,7 @@ let run (line : string) : string =
     let g1 = get (contract g (narg 2) (narg 3)) in
     let d1 = full (e_val g1) in
     d1 ^ " => " ^ full (e_val (get (split_edge g1 (narg 4) (narg 5))))
+  | "big" -> big (List.nth args 0) (List.nth args 1) (List.tl (List.tl args)) toks
   | "viewedit" ->
     (* views of an editable base, observed before and after every edit of the base: the view
        models applied to the CURRENT model base.  Tokens with ':' are edits, the others edges. *)
